@@ -400,9 +400,9 @@ theorem vmCompare_ok (tbl : Table α) (hc : ConvComplete tbl) (op : CmpOp) (x y 
 
 /-- every function of the session was checked against a context that is still valid: its body is typed, for
 its signature, under signatures and global types that the current ones include -/
-def FnsOK (tbl : Table α) (fns : List (FnDef α)) (S : List FnSig) (Γ : List PTy) : Prop :=
-  ∀ (f : Nat) (sig : FnSig), S[f]? = some sig → ∃ fd, fns[f]? = some fd ∧ fd.arity = sig.params.length ∧
-    sig.ret.isVal = true ∧ ∃ S₁ Γ₁, Incl S₁ S ∧ Incl Γ₁ Γ ∧ HasTy tbl S₁ Γ₁ sig.params fd.body sig.ret
+def FnsOK (tbl : Table α) (fns : List (FnDef α)) (S : List FnSig) (Γ : List GTy) : Prop :=
+  ∀ (f : Nat) (sig : FnSig), S[f]? = some sig → ∃ fd, fns[f]? = some fd ∧ ∀ ps r, sig.inst ps r →
+    fd.arity = ps.length ∧ r.isVal = true ∧ ∃ S₁ Γ₁, Incl S₁ S ∧ Incl Γ₁ Γ ∧ HasTy tbl S₁ Γ₁ ps fd.body r
 
 /-- **Soundness for expressions of the program fragment**, for every fuel: in a session whose globals agree
 with their types and whose functions were checked (`FnsOK`), an expression typed under included contexts
@@ -410,12 +410,12 @@ evaluates to a value that agrees with its static type, or fails with a division 
 never with a unit incompatibility and never with an operand of the wrong kind.  Second part: the same for the
 argument chain of a call. -/
 theorem expr_soundness (tbl : Table α) (hc : ConvComplete tbl) (fns : List (FnDef α)) (S : List FnSig)
-    (Γ : List PTy) (glob : List (PVal α)) (henv : EnvOK tbl glob Γ) (hfns : FnsOK tbl fns S Γ) :
+    (Γ : List GTy) (glob : List (PVal α)) (henv : GlobOK tbl glob Γ) (hfns : FnsOK tbl fns S Γ) :
     ∀ fuel : Nat,
-      (∀ (S₀ : List FnSig) (Γ₀ L : List PTy) (loc : List (PVal α)) (e : PExpr α) (t : PTy),
+      (∀ (S₀ : List FnSig) (Γ₀ : List GTy) (L : List PTy) (loc : List (PVal α)) (e : PExpr α) (t : PTy),
         Incl S₀ S → Incl Γ₀ Γ → EnvOK tbl loc L → HasTy tbl S₀ Γ₀ L e t → t.isVal = true →
         Sound tbl (evalP tbl fns glob fuel loc e) t) ∧
-      (∀ (S₀ : List FnSig) (Γ₀ L : List PTy) (loc : List (PVal α)) (e : PExpr α) (ts : List PTy),
+      (∀ (S₀ : List FnSig) (Γ₀ : List GTy) (L : List PTy) (loc : List (PVal α)) (e : PExpr α) (ts : List PTy),
         Incl S₀ S → Incl Γ₀ Γ → EnvOK tbl loc L → HasTy tbl S₀ Γ₀ L e (.args ts) →
         SoundArgs tbl (evalArgs tbl fns glob fuel loc e) ts) := by
   intro fuel
@@ -439,9 +439,9 @@ theorem expr_soundness (tbl : Table α) (hc : ConvComplete tbl) (fns : List (FnD
         · right; intro b; simp [unitVec, h b]
         · left; exact h
       | unit f => left; exact ⟨.q ⟨one, [f], true⟩, by simp only [evalP], Or.inr (fun _ => rfl)⟩
-      | var i _ h =>
-        obtain ⟨v, hv, hvok⟩ := envOK_get tbl glob Γ henv i t (hΓ i t h)
-        left; exact ⟨v, by simp only [evalP, hv], hvok⟩
+      | var i T _ h hT =>
+        obtain ⟨v, hv, hvok⟩ := globOK_get tbl glob Γ henv i T (hΓ i T h)
+        left; exact ⟨v, by simp only [evalP, hv], hvok t hT⟩
       | loc i _ h =>
         obtain ⟨v, hv, hvok⟩ := envOK_get tbl loc L hloc i t h
         left; exact ⟨v, by simp only [evalP, hv], hvok⟩
@@ -592,14 +592,15 @@ theorem expr_soundness (tbl : Table α) (hc : ConvComplete tbl) (fns : List (FnD
           | true => exact IH tt _ htt hty
           | false => exact IH ee _ hee hty
         · right; rcases he with h | h <;> (rw [h]; unfold Bad; simp)
-      | @call f args sig hsig hargs =>
+      | @call f args sig hsig ps _ hinst hargs =>
         simp only [evalP]
-        rcases ihA S₀ Γ₀ L loc args sig.params hS hΓ hloc hargs with ⟨vs, hvs, hvsok⟩ | he
+        rcases ihA S₀ Γ₀ L loc args ps hS hΓ hloc hargs with ⟨vs, hvs, hvsok⟩ | he
         · rw [hvs]
-          obtain ⟨fd, hfd, har, hret, S₁, Γ₁, hS₁, hΓ₁, hbody⟩ := hfns f sig (hS f sig hsig)
-          have hlen : vs.length = fd.arity := by rw [har]; exact envOK_length tbl vs sig.params hvsok
+          obtain ⟨fd, hfd, hall⟩ := hfns f sig (hS f sig hsig)
+          obtain ⟨har, hret, S₁, Γ₁, hS₁, hΓ₁, hbody⟩ := hall ps t hinst
+          have hlen : vs.length = fd.arity := by rw [har]; exact envOK_length tbl vs ps hvsok
           simp only [hfd, hlen, if_true]
-          exact ihE S₁ Γ₁ sig.params vs fd.body sig.ret hS₁ hΓ₁ hvsok hbody hret
+          exact ihE S₁ Γ₁ ps vs fd.body t hS₁ hΓ₁ hvsok hbody hret
         · right; rcases he with h | h <;> (rw [h]; unfold Bad; simp)
       | noarg => simp [PTy.isVal] at hval
       | arg _ _ _ => simp [PTy.isVal] at hval
@@ -618,18 +619,20 @@ theorem expr_soundness (tbl : Table α) (hc : ConvComplete tbl) (fns : List (FnD
           · rw [hvs]; left; exact ⟨v :: vs, rfl, ⟨hvok, hvsok⟩⟩
           · right; rcases he with h | h <;> (rw [h]; unfold Bad; simp)
         · right; rcases he with h | h <;> (rw [h]; unfold Bad; simp)
-      | var i _ h =>
+      | var i T _ h hT =>
         -- a global of an `args` type cannot exist: no value agrees with it
         subst hteq
-        obtain ⟨v, _, hvok⟩ := envOK_get tbl glob Γ henv i _ (hΓ i _ h)
-        cases v <;> simp [VOK] at hvok
+        obtain ⟨v, _, hvok⟩ := globOK_get tbl glob Γ henv i T (hΓ i T h)
+        have := hvok _ hT
+        cases v <;> simp [VOK] at this
       | loc i _ h =>
         subst hteq
         obtain ⟨v, _, hvok⟩ := envOK_get tbl loc L hloc i _ h
         cases v <;> simp [VOK] at hvok
       | @ite c tt ee _ hty _ _ _ => subst hteq; simp [PTy.isVal] at hty
-      | @call f args sig hsig hargs =>
-        obtain ⟨fd, _, _, hret, _⟩ := hfns f sig (hS f sig hsig)
+      | @call f args sig hsig ps _ hinst hargs =>
+        obtain ⟨fd, _, hall⟩ := hfns f sig (hS f sig hsig)
+        obtain ⟨_, hret, _⟩ := hall ps _ hinst
         rw [← hteq] at hret
         simp [PTy.isVal] at hret
       | num _ _ _ => cases hteq
@@ -650,62 +653,77 @@ theorem expr_soundness (tbl : Table α) (hc : ConvComplete tbl) (fns : List (FnD
       | blit _ => cases hteq
 
 /-- the invariant of a session of the fragment: globals agree with their types, functions were checked -/
-def StateOK (tbl : Table α) (st : PState α) (S : List FnSig) (Γ : List PTy) : Prop :=
-  EnvOK tbl st.glob Γ ∧ FnsOK tbl st.fns S Γ
+def StateOK (tbl : Table α) (st : PState α) (S : List FnSig) (Γ : List GTy) : Prop :=
+  GlobOK tbl st.glob Γ ∧ FnsOK tbl st.fns S Γ
 
-theorem fnsOK_grow_glob (tbl : Table α) {fns : List (FnDef α)} {S : List FnSig} {Γ : List PTy} (t : PTy)
-    (h : FnsOK tbl fns S Γ) : FnsOK tbl fns S (Γ ++ [t]) := by
+theorem fnsOK_grow_glob (tbl : Table α) {fns : List (FnDef α)} {S : List FnSig} {Γ : List GTy} (T : GTy)
+    (h : FnsOK tbl fns S Γ) : FnsOK tbl fns S (Γ ++ [T]) := by
   intro f sig hs
-  obtain ⟨fd, hfd, har, hret, S₁, Γ₁, hS₁, hΓ₁, hb⟩ := h f sig hs
-  exact ⟨fd, hfd, har, hret, S₁, Γ₁, hS₁, hΓ₁.trans (Incl.append Γ [t]), hb⟩
+  obtain ⟨fd, hfd, hall⟩ := h f sig hs
+  refine ⟨fd, hfd, fun ps r hi => ?_⟩
+  obtain ⟨har, hret, S₁, Γ₁, hS₁, hΓ₁, hb⟩ := hall ps r hi
+  exact ⟨har, hret, S₁, Γ₁, hS₁, hΓ₁.trans (Incl.append Γ [T]), hb⟩
 
-theorem fnsOK_add_fn (tbl : Table α) {fns : List (FnDef α)} {S : List FnSig} {Γ : List PTy} (d : FnDef α)
-    (sig : FnSig) (hlen : fns.length = S.length) (hret : sig.ret.isVal = true) (har : d.arity = sig.params.length)
-    (hb : HasTy tbl (S ++ [sig]) Γ sig.params d.body sig.ret) (h : FnsOK tbl fns S Γ) :
+theorem fnsOK_add_fn (tbl : Table α) {fns : List (FnDef α)} {S : List FnSig} {Γ : List GTy} (d : FnDef α)
+    (sig : FnSig) (hlen : fns.length = S.length)
+    (hb : ∀ ps r, sig.inst ps r → r.isVal = true ∧ d.arity = ps.length ∧ HasTy tbl (S ++ [sig]) Γ ps d.body r)
+    (h : FnsOK tbl fns S Γ) :
     FnsOK tbl (fns ++ [d]) (S ++ [sig]) Γ := by
   intro f sg hs
   by_cases hf : f < S.length
   · rw [List.getElem?_append_left hf] at hs
-    obtain ⟨fd, hfd, har', hret', S₁, Γ₁, hS₁, hΓ₁, hb'⟩ := h f sg hs
-    refine ⟨fd, ?_, har', hret', S₁, Γ₁, hS₁.trans (Incl.append S [sig]), hΓ₁, hb'⟩
-    rw [List.getElem?_append_left (by omega)]; exact hfd
+    obtain ⟨fd, hfd, hall⟩ := h f sg hs
+    refine ⟨fd, ?_, fun ps r hi => ?_⟩
+    · rw [List.getElem?_append_left (by omega)]; exact hfd
+    · obtain ⟨har', hret', S₁, Γ₁, hS₁, hΓ₁, hb'⟩ := hall ps r hi
+      exact ⟨har', hret', S₁, Γ₁, hS₁.trans (Incl.append S [sig]), hΓ₁, hb'⟩
   · have hfe : f = S.length := by
       rcases Nat.lt_or_ge f (S.length + 1) with h' | h'
       · omega
       · rw [List.getElem?_eq_none (by simp; omega)] at hs; cases hs
     subst hfe
     simp at hs; subst hs
-    refine ⟨d, ?_, har, hret, S ++ [sig], Γ, Incl.refl _, Incl.refl _, hb⟩
-    rw [← hlen]; simp
+    refine ⟨d, ?_, fun ps r hi => ?_⟩
+    · rw [← hlen]; simp
+    · obtain ⟨hret, har, hbody⟩ := hb ps r hi
+      exact ⟨har, hret, S ++ [sig], Γ, Incl.refl _, Incl.refl _, hbody⟩
 
 /-- **Soundness for programs** (sequences of `let` and `fn` definitions), for every fuel: running a well-typed
 program in a session that satisfies the invariant either fails with a division by zero (or runs out of fuel), or
 ends in a session in which *every* global — the earlier ones and each newly defined one — agrees with its
 static type and every function is checked. -/
 theorem program_soundness (tbl : Table α) (hc : ConvComplete tbl) (fuel : Nat) (S S' : List FnSig)
-    (Γ Γ' : List PTy) (prog : List (PStmt α)) (hp : ProgOK tbl S Γ prog S' Γ') :
+    (Γ Γ' : List GTy) (prog : List (PStmt α)) (hp : ProgOK tbl S Γ prog S' Γ') :
     ∀ st : PState α, StateOK tbl st S Γ → st.fns.length = S.length →
     (∃ st', runProg tbl fuel prog st = .ok st' ∧ StateOK tbl st' S' Γ') ∨ Bad (runProg tbl fuel prog st) := by
   induction hp with
   | nil S Γ => intro st hst _; left; exact ⟨st, rfl, hst⟩
-  | @letv S Γ e t rest S' Γ' hval hte _ ih =>
+  | @letv S Γ e rest S' Γ' T hne hall _ ih =>
     intro st hst hlen
     obtain ⟨henv, hfns⟩ := hst
-    rcases (expr_soundness tbl hc st.fns S Γ st.glob henv hfns fuel).1 S Γ [] [] e t (Incl.refl _) (Incl.refl _)
-        trivial hte hval with ⟨v, hv, hvok⟩ | he
+    obtain ⟨t₀, ht₀⟩ := hne
+    have hsound : ∀ t, T t → Sound tbl (evalP tbl st.fns st.glob fuel [] e) t := fun t ht =>
+      (expr_soundness tbl hc st.fns S Γ st.glob henv hfns fuel).1 S Γ [] [] e t (Incl.refl _) (Incl.refl _)
+        trivial (hall t ht).2 (hall t ht).1
+    rcases hsound t₀ ht₀ with ⟨v, hv, _⟩ | he
     · simp only [runProg, hv]
+      have hvall : ∀ t, T t → VOK tbl v t := by
+        intro t ht
+        rcases hsound t ht with ⟨v', hv', hvok'⟩ | he'
+        · rw [hv] at hv'; injection hv' with hv'; subst hv'; exact hvok'
+        · rcases he' with h | h <;> (rw [hv] at h; cases h)
       exact ih { st with glob := st.glob ++ [v] }
-        ⟨envOK_snoc tbl st.glob Γ henv v t hvok, fnsOK_grow_glob tbl t hfns⟩ hlen
+        ⟨globOK_snoc tbl st.glob Γ henv v T hvall, fnsOK_grow_glob tbl T hfns⟩ hlen
     · right; rcases he with h | h <;> (simp only [runProg, h]; unfold Bad; simp)
-  | @fn S Γ d rest S' Γ' sig hret har hb _ ih =>
+  | @fn S Γ d rest S' Γ' sig hb _ ih =>
     intro st hst hlen
     obtain ⟨henv, hfns⟩ := hst
     simp only [runProg]
-    exact ih { st with fns := st.fns ++ [d] } ⟨henv, fnsOK_add_fn tbl d sig hlen hret har hb hfns⟩ (by simp [hlen])
+    exact ih { st with fns := st.fns ++ [d] } ⟨henv, fnsOK_add_fn tbl d sig hlen hb hfns⟩ (by simp [hlen])
 
 /-- the same for the prelude's kind of table (distinct unit names), started from the empty session -/
 theorem program_soundness_closed (tbl : Table α) (hn : NamesDistinct tbl) (fuel : Nat) (S' : List FnSig)
-    (Γ' : List PTy) (prog : List (PStmt α)) (hp : ProgOK tbl [] [] prog S' Γ') :
+    (Γ' : List GTy) (prog : List (PStmt α)) (hp : ProgOK tbl [] [] prog S' Γ') :
     (∃ st', runProg tbl fuel prog {} = .ok st' ∧ StateOK tbl st' S' Γ') ∨ Bad (runProg tbl fuel prog {}) :=
   program_soundness tbl (convComplete tbl hn) fuel [] S' [] Γ' prog hp {}
     ⟨trivial, fun f sig h => by simp at h⟩ rfl
@@ -713,7 +731,7 @@ theorem program_soundness_closed (tbl : Table α) (hn : NamesDistinct tbl) (fuel
 /-- corollary: a well-typed program never fails with a unit incompatibility and never gets stuck on an
 operand of the wrong kind -/
 theorem program_no_incompatible (tbl : Table α) (hc : ConvComplete tbl) (fuel : Nat) (S' : List FnSig)
-    (Γ' : List PTy) (prog : List (PStmt α)) (hp : ProgOK tbl [] [] prog S' Γ') :
+    (Γ' : List GTy) (prog : List (PStmt α)) (hp : ProgOK tbl [] [] prog S' Γ') :
     runProg tbl fuel prog {} ≠ .error (.q .incompatible) ∧ runProg tbl fuel prog {} ≠ .error .stuck := by
   rcases program_soundness tbl hc fuel [] S' [] Γ' prog hp {} ⟨trivial, fun f sig h => by simp at h⟩ rfl with
     ⟨st', h, _⟩ | h | h
@@ -721,27 +739,41 @@ theorem program_no_incompatible (tbl : Table α) (hc : ConvComplete tbl) (fuel :
   · rw [h]; exact ⟨by simp, by simp⟩
   · rw [h]; exact ⟨by simp, by simp⟩
 
-/-- non-vacuity: a program with a variable, the polymorphic zero, a comparison, a conditional, a recursive
-function and a call is typed by `ProgOK` (over any table), so the hypotheses of `program_soundness` are
-satisfiable -/
-example (tbl : Table α) (v : α) :
+/-- the signature `fn f<D: Dim>(x: D) -> D` as a set of instances -/
+def sigIdDim : FnSig := ⟨fun ps r => ∃ d, ps = [.dim d] ∧ r = .dim d⟩
+
+/-- non-vacuity: a program with a *polymorphic* global (`let z = 0`, usable at every dimension), a *generic*
+recursive function (one instance per dimension), comparisons, a conditional and calls at two different
+dimensions is typed by `ProgOK` (over any table), so the hypotheses of `program_soundness` are satisfiable:
+
+    let z = 0
+    fn f(x) = if x <= z then x else f(x + z)        -- fn f<D: Dim>(x: D) -> D
+    let a = f(3)                                     -- at Scalar
+    let b = f(1 u)                                   -- at the dimension of the unit `u`
+-/
+example (tbl : Table α) (v : α) (u : Factor) :
     ProgOK tbl [] []
-      [.letv (.num v), .letv (.add (.var 0) (.num zero)), .letv (.cmp .lt (.var 0) (.var 1)),
-       .letv (.ite (.var 2) (.var 0) (.var 1)),
-       .fn ⟨1, .ite (.cmp .le (.loc 0) (.var 0)) (.loc 0) (.call 0 (.arg (.mul (.loc 0) (.var 1)) .noarg))⟩,
-       .letv (.call 0 (.arg (.var 3) .noarg))]
-      [⟨[.dim (fun _ => 0)], .dim (fun _ => 0)⟩]
-      [.dim (fun _ => 0), .dim (fun _ => 0), .bool, .dim (fun _ => 0), .dim (fun _ => 0)] := by
-  refine .letv rfl (.num v _ (Or.inl fun _ => rfl)) (.letv rfl (.add (.var 0 _ rfl) (.num zero _ (Or.inl fun _ => rfl)))
-    (.letv rfl (.cmp .lt (.var 0 _ rfl) (.var 1 _ rfl)) (.letv rfl (.ite rfl (.var 2 _ rfl) (.var 0 _ rfl) (.var 1 _ rfl))
-      (.fn ⟨[.dim (fun _ => 0)], .dim (fun _ => 0)⟩ rfl rfl ?_ (.letv rfl ?_ (.nil _ _))))))
-  · refine .ite rfl (.cmp .le (.loc 0 _ rfl) (.var 0 _ rfl)) (.loc 0 _ rfl) ?_
-    refine .call ⟨[.dim (fun _ => 0)], .dim (fun _ => 0)⟩ rfl (.arg rfl ?_ .noarg)
-    have h := @HasTy.mul α _ tbl [⟨[.dim (fun _ => 0)], .dim (fun _ => 0)⟩]
-      [.dim (fun _ => 0), .dim (fun _ => 0), .bool, .dim (fun _ => 0)] [.dim (fun _ => 0)] (.loc 0) (.var 1)
-      (fun _ => 0) (fun _ => 0) (.loc 0 _ rfl) (.var 1 _ rfl)
-    have he : (fun x : Nat => (0 : Rat) + 0) = fun _ => 0 := by funext x; grind
-    rw [he] at h; exact h
-  · exact .call ⟨[.dim (fun _ => 0)], .dim (fun _ => 0)⟩ rfl (.arg rfl (.var 3 _ rfl) .noarg)
+      [.letv (.num zero),
+       .fn ⟨1, .ite (.cmp .le (.loc 0) (.var 0)) (.loc 0) (.call 0 (.arg (.add (.loc 0) (.var 0)) .noarg))⟩,
+       .letv (.call 0 (.arg (.num v) .noarg)),
+       .letv (.call 0 (.arg (.unit u) .noarg))]
+      [sigIdDim]
+      [fun t => ∃ d, t = .dim d, fun t => t = .dim (fun _ => 0), fun t => t = .dim (unitVec tbl [u])] := by
+  have hz : beq (zero : α) zero = true := (beq_iff _ _).mpr rfl
+  refine .letv (fun t => ∃ d, t = .dim d) ⟨.dim (fun _ => 0), _, rfl⟩ ?_
+    (.fn sigIdDim ?_
+      (.letv (fun t => t = .dim (fun _ => 0)) ⟨_, rfl⟩ ?_
+        (.letv (fun t => t = .dim (unitVec tbl [u])) ⟨_, rfl⟩ ?_ (.nil _ _))))
+  · rintro t ⟨d, rfl⟩
+    exact ⟨rfl, .num zero d (Or.inr hz)⟩
+  · rintro ps r ⟨d, rfl, rfl⟩
+    refine ⟨rfl, rfl, ?_⟩
+    refine .ite rfl (.cmp .le (.loc 0 _ rfl) (.var 0 _ (.dim d) rfl ⟨d, rfl⟩)) (.loc 0 _ rfl) ?_
+    exact .call sigIdDim rfl [.dim d] (.dim d) ⟨d, rfl, rfl⟩
+      (.arg rfl (.add (.loc 0 _ rfl) (.var 0 _ (.dim d) rfl ⟨d, rfl⟩)) .noarg)
+  · rintro t rfl
+    exact ⟨rfl, .call sigIdDim rfl [.dim (fun _ => 0)] _ ⟨_, rfl, rfl⟩ (.arg rfl (.num v _ (Or.inl fun _ => rfl)) .noarg)⟩
+  · rintro t rfl
+    exact ⟨rfl, .call sigIdDim rfl [.dim (unitVec tbl [u])] _ ⟨_, rfl, rfl⟩ (.arg rfl (.unit u) .noarg)⟩
 
 end NumbatModel.Qty
